@@ -69,7 +69,7 @@ impl HBw {
     }
 }
 #[cfg(not(kani))]
-fn sor_picture(tr: u8, w: u8, h: u8, ptype: u32, dc: u8, bad: u8) -> Vec<u8> {
+fn sor_picture(tr: u8, w: u8, h: u8, ptype: u32, dc: u8, bad: u8, intra_in_p: bool) -> Vec<u8> {
     let mut b = HBw { buf: Vec::new(), pos: 0 };
     b.put(1, 17);
     b.put(0, 5);
@@ -94,6 +94,13 @@ fn sor_picture(tr: u8, w: u8, h: u8, ptype: u32, dc: u8, bad: u8) -> Vec<u8> {
         } else if bad == 3 && k == n - 1 {
             b.put(0, 1); // COD = 0 followed by an invalid MCBPC code word (ten zero bits): fails in the last macroblock
             b.put(0, 10);
+        } else if intra_in_p {
+            b.put(0, 1); // COD = 0
+            b.put(0b00011, 5); // MCBPC (P picture table): INTRA, no chroma coefficients
+            b.put(0b0011, 4); // CBPY (intra sense): no luma coefficients
+            for _ in 0..6 {
+                b.put(dc as u32, 8);
+            }
         } else {
             b.put(1, 1); // COD = 1: not coded
         }
@@ -138,7 +145,8 @@ fn h_history_dyn(s: &mut RSrc) {
                     (if b == 3 { 1 } else { t }, b)
                 }
             };
-            let data = sor_picture(tr, w, h, ptype, dc, bad);
+            let intra_in_p = ptype != 0 && bad == 0 && s.bool();
+            let data = sor_picture(tr, w, h, ptype, dc, bad, intra_in_p);
             let mut rd = H263Reader::from_source(&data[..]);
             let r = st.decode_next_picture(&mut rd);
             let n = w as usize * h as usize;
@@ -146,7 +154,8 @@ fn h_history_dyn(s: &mut RSrc) {
             // what the model expects
             let expect: Option<Planes> = if bad != 0 {
                 None
-            } else if ptype == 0 {
+            } else if ptype == 0 || intra_in_p {
+                // (a P picture made of INTRA macroblocks needs no reference)
                 Some((vec![dc; n], vec![dc; cn], vec![dc; cn], tr as u16))
             } else {
                 reference.as_ref().map(|r| (r.0.clone(), r.1.clone(), r.2.clone(), tr as u16))
